@@ -123,6 +123,8 @@ pub struct Shared {
     pub keep_tx: bool,
     /// the most recent cancellation was forced (nothing else could happen), not a chosen deviation
     pub last_cancel_forced: bool,
+    /// buffering transport: packets accepted by write and waiting for a flush (connection, packet, bytes)
+    pub held: Vec<(usize, mr::CPacket, Vec<u8>)>,
 }
 
 pub struct Watchdog(pub &'static str);
@@ -163,6 +165,7 @@ impl Shared {
     fn deliver_to_broker(&mut self, c: usize, pkts: Vec<(mr::CPacket, Vec<u8>)>) {
         for (pkt, raw) in pkts {
             self.log(|| format!("  wire c{} -> broker {} {}", c, pkt.name(), mr::hex(&raw)));
+            self.oracle.reached_broker(&pkt, &raw);
             self.broker.on_client_packet(&pkt);
             if matches!(pkt, mr::CPacket::Disconnect { .. }) {
                 // the broker closes the network connection after a DISCONNECT
@@ -227,7 +230,13 @@ impl Shared {
                     self.conns[c].tx_log.extend_from_slice(&buf[..n]);
                 }
                 let pkts = self.oracle.write_accepted(c, buf, n);
-                self.deliver_to_broker(c, pkts);
+                if self.cfg.io.deliver_on_flush {
+                    for (pkt, raw) in pkts {
+                        self.held.push((c, pkt, raw));
+                    }
+                } else {
+                    self.deliver_to_broker(c, pkts);
+                }
                 Poll::Ready(Ok(n))
             }
             A::Pending => {
@@ -271,6 +280,12 @@ impl Shared {
         match opts[i] {
             0 => {
                 self.progress += 1;
+                if self.cfg.io.deliver_on_flush {
+                    let held = std::mem::take(&mut self.held);
+                    let (mine, rest): (Vec<_>, Vec<_>) = held.into_iter().partition(|h| h.0 == c);
+                    self.held = rest;
+                    self.deliver_to_broker(c, mine.into_iter().map(|h| (h.1, h.2)).collect());
+                }
                 Poll::Ready(Ok(()))
             }
             1 => {
@@ -530,6 +545,12 @@ impl Shared {
         }
         let pkt = self.broker.emit(e, fail);
         self.push_inbound(c, pkt);
+        if self.cfg.broker.script_burst && matches!(e, Emit::Script) {
+            while self.broker.enabled().iter().any(|x| matches!(x, Emit::Script)) {
+                let pkt = self.broker.emit(&Emit::Script, 0);
+                self.push_inbound(c, pkt);
+            }
+        }
     }
 
     /// The operation future returned `Pending`: decide what happens next in the world.
@@ -825,6 +846,9 @@ pub struct World<'v> {
     /// operations dropped by a chosen cancellation: (index into `program`, kind, request number)
     pub cancelled: Vec<(usize, OpK, Option<u8>)>,
     pub results: Vec<(OpK, Res)>,
+    /// session bookkeeping when the benign continuation ended: (publish-quiescent, retained,
+    /// awaiting PUBCOMP, queued acknowledgements, inbound QoS 2 identifiers pending, send quota)
+    pub final_state: Option<(bool, usize, usize, usize, usize, u16)>,
     pub sh: Rc<RefCell<Shared>>,
     pub cfg: Rc<Cfg>,
     pub handles: Vec<Handle>,
@@ -866,6 +890,7 @@ pub struct RunResult {
     pub cancelled: Vec<(usize, OpK, Option<u8>)>,
     /// per cancelled operation: nothing of it was enqueued or offered
     pub cancelled_without_trace: Vec<bool>,
+    pub final_state: Option<(bool, usize, usize, usize, usize, u16)>,
 }
 
 struct ConnCtx {
@@ -1636,6 +1661,17 @@ impl<'v> World<'v> {
             self.sample_status(&q, "after the benign continuation");
         }
         let quiescent = self.quiescent(conn);
+        {
+            let rt = conn.session().verif_runtime();
+            self.final_state = Some((
+                conn.session().is_publish_quiescent(),
+                rt.retained,
+                rt.pending_release,
+                rt.pending_control,
+                rt.pending_inbound_qos2,
+                rt.send_quota,
+            ));
+        }
         if !quiescent && !last_chance {
             let sh = self.sh.borrow();
             let lost = last.fatal() || sh.oracle.conns[id].torn || sh.broker.conn_closed || sh.conns[id].closed;
@@ -1899,6 +1935,9 @@ fn compare_with_twin(cfg: &Rc<Cfg>, r: &mut RunResult, record: bool) {
             if r.obs.pubrels != t.obs.pubrels {
                 flag("C13", "pubrels-differ", &ctx, format!("after cancelling {:?}: PUBRELs [{}], uncancelled run [{}]", ops, hexes(&r.obs.pubrels), hexes(&t.obs.pubrels)));
             }
+            if r.final_state != t.final_state {
+                flag("C13", "leftover-state-differs", &ctx, format!("after cancelling {:?} and the same benign continuation the session ends with (quiescent, retained, awaiting PUBCOMP, queued acks, inbound QoS 2 pending, send quota) = {:?}, the uncancelled run with {:?}", ops, r.final_state, t.final_state));
+            }
             if r.obs.delivered != t.obs.delivered {
                 flag("C13", "deliveries-differ", &ctx, format!("after cancelling {:?}: delivered {:?}, uncancelled run {:?}", ops, r.obs.delivered, t.obs.delivered));
             }
@@ -1948,6 +1987,7 @@ pub fn run_inner(
         manual: false,
         keep_tx: cfg.twin.is_some() || script.is_some(),
         last_cancel_forced: false,
+        held: Vec::new(),
     }));
     if script.is_some() {
         sh.borrow_mut().ch.frozen = true;
@@ -1958,6 +1998,7 @@ pub fn run_inner(
         cur_args: VecDeque::new(),
         cancelled: Vec::new(),
         results: Vec::new(),
+        final_state: None,
         sh: sh.clone(),
         cfg: cfg.clone(),
         handles: Vec::new(),
@@ -2021,6 +2062,7 @@ pub fn run_inner(
                     program: Vec::new(),
                     cancelled: Vec::new(),
                     cancelled_without_trace: Vec::new(),
+                    final_state: None,
                 };
             }
         };
@@ -2075,6 +2117,7 @@ pub fn run_inner(
         program: std::mem::take(&mut world.program),
         cancelled: std::mem::take(&mut world.cancelled),
         cancelled_without_trace,
+        final_state: world.final_state,
         points: std::mem::take(&mut shb.ch.points),
         violations: std::mem::take(&mut shb.oracle.viol),
         trace: shb.trace.take(),
